@@ -2,6 +2,7 @@ package main
 
 import (
 	"fmt"
+	"regexp"
 	"go/token"
 	"go/types"
 	"math/big"
@@ -44,6 +45,9 @@ func (ex *Exec) call(fr *Frame, cc *ssa.CallCommon, in ssa.Instruction, st *Stat
 		ok := c.Not(c.Eq(recv.Tm, ex.W.zeroOfSort(ex.W.Iface)))
 		ex.oblige("nil", "invoke:"+ex.anchor(fr, in, in.Pos()), cur, ok, in.Pos(), fr.prefix)
 		cur = c.And(cur, ok)
+		if fc, pc := ex.ifaceContract(cc); fc != nil {
+			return ex.ifaceContractCall(fr, cc, fc, pc, recv, args, st, cur, in, mkRes)
+		}
 		ex.note(ex.Abstr, "interface-call:"+cc.Method.Name())
 		if !ex.pureIfaceMethod(cc) {
 			ex.havocAll(st)
@@ -61,6 +65,10 @@ func (ex *Exec) call(fr *Frame, cc *ssa.CallCommon, in ssa.Instruction, st *Stat
 			ok := c.Not(c.Eq(fv.Tm, c.IntLit(0)))
 			ex.oblige("nil", "funcvalue:"+ex.anchor(fr, in, in.Pos()), cur, ok, in.Pos(), fr.prefix)
 			cur = c.And(cur, ok)
+		}
+		if ex.isPureField(cc.Value) {
+			ex.note(ex.Abstr, "pure-func-field-call")
+			return mkRes("r_fn"), cur
 		}
 		if fv.Tm != nil {
 			if r, ncur, ok := ex.indirectCall(fr, cc, in, fv, args, st, cur, resT, mkRes); ok {
@@ -268,6 +276,25 @@ func (ex *Exec) externalCall(fr *Frame, callee *ssa.Function, args []Val, st *St
 				if deferredCallback[full] {
 					ex.note(ex.Abstr, "callback-runs-on-another-goroutine:"+shortKey(full))
 					continue
+				}
+				// a callback given as a function literal or named function: the external code can only
+				// cause the effects of that function's body (zero or more times)
+				if ai < len(cc.Args) {
+					var cb *ssa.Function
+					switch f := cc.Args[ai].(type) {
+					case *ssa.MakeClosure:
+						cb, _ = f.Fn.(*ssa.Function)
+					case *ssa.Function:
+						cb = f
+					}
+					if cb != nil && ex.W.inModule(pkgOf(cb)) {
+						ex.note(ex.Abstr, "callback-effects-summarised:"+shortKey(full))
+						ex.applyModset(st, ex.Prog.ModSummary(cb))
+						continue
+					}
+					if cb != nil && len(cb.FreeVars) == 0 {
+						continue // a function declared outside the module cannot touch module state
+					}
 				}
 				ex.note(ex.Abstr, "callback-to-external:"+shortKey(full))
 				ex.havocAll(st)
@@ -919,4 +946,142 @@ func sameParams(a, b *types.Signature) bool {
 		}
 	}
 	return true
+}
+
+// ---------------------------------------------------------------- interface contracts
+
+// ifaceContract finds a contract declared on an interface method: func (w Widget) Draw(...) in the
+// contract file of the package that declares the interface type.
+func (ex *Exec) ifaceContract(cc *ssa.CallCommon) (*FuncContract, *PkgContracts) {
+	named, ok := cc.Value.Type().(*types.Named)
+	if !ok || named.Obj().Pkg() == nil {
+		return nil, nil
+	}
+	pc := ex.Prog.contracts[named.Obj().Pkg().Path()]
+	if pc == nil {
+		return nil, nil
+	}
+	fc := pc.Funcs["("+named.Obj().Name()+")."+cc.Method.Name()]
+	if fc == nil || !hasSpec(fc) {
+		return nil, nil
+	}
+	return fc, pc
+}
+
+var ifaceHdrRe = regexp.MustCompile(`\)\s*\w+\s*\(([^)]*)\)`)
+
+// ifaceContractCall: requires are checked, everything is forgotten unless the contract has a modifies
+// clause, results are fresh, ensures are assumed. Every implementation is separately verified against the
+// same clauses (they are repeated on the implementations' own contracts).
+func (ex *Exec) ifaceContractCall(fr *Frame, cc *ssa.CallCommon, fc *FuncContract, pc *PkgContracts, recv Val, args []Val, st *State, cur *smt.Term, in ssa.Instruction, mkRes func(string) Val) (Val, *smt.Term) {
+	c := ex.W.C
+	// parameter names from the contract header
+	var names []string
+	if m := ifaceHdrRe.FindStringSubmatch(fc.Header); m != nil {
+		for _, prm := range strings.Split(m[1], ",") {
+			f := strings.Fields(strings.TrimSpace(prm))
+			if len(f) > 0 {
+				names = append(names, f[0])
+			}
+		}
+	}
+	named := cc.Value.Type().(*types.Named)
+	sub := &Frame{fn: fr.fn, vals: map[ssa.Value]Val{}, fc: fc, pc: pc}
+	pre := st.clone()
+	mkEnv := func(cs, old *State) *CEnv {
+		env := ex.envFor(nil, cs, old, nil)
+		env.pkg = named.Obj().Pkg()
+		env.pc = pc
+		for i, n := range names {
+			if i < len(args) {
+				env.vars[n] = args[i]
+			}
+		}
+		return env
+	}
+	_ = sub
+	envPre := mkEnv(st, st)
+	site := named.Obj().Name() + "." + cc.Method.Name()
+	nreq := 0
+	for _, cl := range fc.Clauses {
+		if cl.Kind != "requires" {
+			continue
+		}
+		nreq++
+		label := cl.Label
+		if label == "" {
+			label = fmt.Sprintf("requires%d", nreq)
+		}
+		goal := ex.evalBool(envPre, cl.E, cl)
+		ex.oblige("pre", site+":"+label, cur, goal, in.Pos(), fr.prefix)
+		cur = c.And(cur, goal)
+	}
+	explicit := false
+	for _, cl := range fc.Clauses {
+		if cl.Kind == "modifies" && cl.Loop == 0 {
+			explicit = true
+			for _, m := range cl.Mods {
+				ex.havocLvalue(envPre, st, m, cl)
+			}
+		}
+	}
+	if !explicit {
+		ex.havocAll(st)
+	}
+	res := mkRes("r_" + cc.Method.Name())
+	envPost := mkEnv(st, pre)
+	var rets []Val
+	if len(res.Tup) > 0 {
+		rets = res.Tup
+	} else if res.Tm != nil {
+		rets = []Val{res}
+	}
+	if envPost.boundNames == nil {
+		envPost.boundNames = map[string]bool{}
+	}
+	for i, r := range rets {
+		envPost.vars[fmt.Sprintf("result%d", i)] = r
+		envPost.boundNames[fmt.Sprintf("result%d", i)] = true
+	}
+	if len(rets) == 1 {
+		envPost.vars["result"] = rets[0]
+		envPost.boundNames["result"] = true
+	}
+	for _, cl := range fc.Clauses {
+		if cl.Kind == "ensures" {
+			ex.assume(c.Implies(cur, ex.evalBool(envPost, cl.E, cl)))
+		}
+	}
+	ex.note(ex.Abstr, "interface-contract:"+site)
+	return res, cur
+}
+
+// isPureField: the func value was loaded from a struct field declared `purefield Type.Field`.
+func (ex *Exec) isPureField(v ssa.Value) bool {
+	var st types.Type
+	var idx int
+	switch x := v.(type) {
+	case *ssa.UnOp:
+		fa, ok := x.X.(*ssa.FieldAddr)
+		if !ok {
+			return false
+		}
+		st = fa.X.Type().Underlying().(*types.Pointer).Elem()
+		idx = fa.Field
+	case *ssa.Field:
+		st = x.X.Type()
+		idx = x.Field
+	default:
+		return false
+	}
+	named, ok := st.(*types.Named)
+	if !ok || named.Obj().Pkg() == nil {
+		return false
+	}
+	pc := ex.Prog.contracts[named.Obj().Pkg().Path()]
+	if pc == nil || pc.PureFields == nil {
+		return false
+	}
+	fld := st.Underlying().(*types.Struct).Field(idx).Name()
+	return pc.PureFields[named.Obj().Name()+"."+fld]
 }
